@@ -41,6 +41,10 @@ pub fn replay_file(path : &str, tag : &str, serial_ref : bool, crash_last : bool
                 "delcache" => { scn.delcache(e["n"].as_str().unwrap()); },
                 "delruler" => { scn.delruler(e["what"].as_str().unwrap()); },
                 "env" => scn.set_env(e["v"].as_str().unwrap()),
+                "rmdir" => { scn.rmdir(e["d"].as_str().unwrap()); },
+                "mkdir" => { scn.mkdir(e["d"].as_str().unwrap()); },
+                "mv" => { scn.mv(e["p"].as_str().unwrap(), e["q"].as_str().unwrap()); },
+                "corrupt" => { scn.corrupt(e["what"].as_str().unwrap(), e["rid"].as_str().unwrap_or("")); },
                 a @ ("build" | "clean") =>
                 {
                     let mut picks = VecDeque::new();
